@@ -94,14 +94,24 @@ Definition sum_view (s : summary) : fsummary :=
 Lemma summary_bytes_length s : length (summary_bytes s) = 40%nat.
 Proof. unfold summary_bytes, f64_bytes, u64. rewrite !app_length, !enc_le_length. reflexivity. Qed.
 
+Definition sum_view_mod (s : summary) : fsummary :=
+  {| fs_bases := w64 (su_bases s); fs_min := w64 (bits_of_f64 (su_min s)); fs_max := w64 (bits_of_f64 (su_max s));
+     fs_sum := w64 (bits_of_f64 (su_sum s)); fs_sumsq := w64 (bits_of_f64 (su_sumsq s)) |}.
+
+Lemma parse_summary_mod img n off s : has_at img off (summary_bytes s) -> n = Nlen img ->
+  parse_summary img n false off = Some (sum_view_mod s).
+Proof.
+  intros H Hn. unfold parse_summary.
+  rewrite (bytes_at_has_w img n _ _ 40 H Hn) by (unfold Nlen; now rewrite summary_bytes_length).
+  cbn [obind]. unfold summary_bytes, f64_bytes, fld, u64, sum_view_mod.
+  cbn [enc_le app firstn skipn dec]. rewrite !dec_le8_mod. reflexivity.
+Qed.
+
 Theorem parse_summary_ok img n off s : has_at img off (summary_bytes s) -> n = Nlen img -> su_bases s < W64 ->
   parse_summary img n false off = Some (sum_view s).
 Proof.
-  intros H Hn Hb. unfold W64 in *. unfold parse_summary.
-  rewrite (bytes_at_has_w img n _ _ 40 H Hn) by (unfold Nlen; now rewrite summary_bytes_length).
-  cbn [obind]. unfold summary_bytes, f64_bytes, fld, u64, sum_view.
-  cbn [enc_le app firstn skipn dec].
-  rewrite dec_le8 by assumption. rewrite !dec_le8_mod. reflexivity.
+  intros H Hn Hb. rewrite (parse_summary_mod img n off s H Hn). unfold sum_view_mod, sum_view.
+  now rewrite (w64_small _ Hb).
 Qed.
 
 Lemma last_in {X} (l : list X) d : l <> [] -> In (last l d) l.
